@@ -150,7 +150,7 @@ func (conn *ConnectionSet) Subtract(other *ConnectionSet) {
 // added explicitly, without using the `AllowAll` field
 func (conn *ConnectionSet) addAllConns() {
 	for _, protocol := range allProtocols {
-		conn.AddConnection(protocol, MakePortSet(true))
+		conn.AllowedProtocols[protocol] = MakePortSet(true)
 	}
 }
 
@@ -196,12 +196,17 @@ func (conn *ConnectionSet) AddConnection(protocol v1.Protocol, ports *PortSet) {
 	if ports.IsEmpty() {
 		return
 	}
+	if conn.AllowAll {
+		return // all connections are already allowed
+	}
 	connPorts, ok := conn.AllowedProtocols[protocol]
 	if ok {
 		connPorts.Union(ports)
 	} else {
 		conn.AllowedProtocols[protocol] = ports.Copy()
 	}
+	// keep the canonical form: a set with all ports of all protocols is the AllowAll set
+	conn.checkIfAllConnections()
 }
 
 // String returns a string representation of the ConnectionSet object
